@@ -137,34 +137,32 @@ def h_jwe_compact_rsa_header_json():
     check(out.raised_only(JoseError, ValueError), "jwe.decrypt_compact(any JSON header, RSA key): only JoseError / ValueError escape")
 
 
-def h_jwe_flattened_members():
-    """Flattened JWE JSON object of the documented shape: str members, dict headers, optional members present or absent."""
-    key, k = oct_key("k")
-    value = {"protected": sym_str("protected"), "iv": sym_str("iv"), "ciphertext": sym_str("ciphertext"), "tag": sym_str("tag")}
-    if sym_choice("with_ek", [True, False]):
-        value["encrypted_key"] = sym_str("encrypted_key")
-    if sym_choice("with_unprotected", [False, True]):
-        value["unprotected"] = sym_dict("unprotected")
-    if sym_choice("with_header", [False, True]):
-        value["header"] = sym_dict("header")
-    if sym_choice("with_aad", [False, True]):
-        value["aad"] = sym_str("aad")
-    out = call(jwe.decrypt_json, value, key, JSON_ALGS)
-    check(out.raised_only(JoseError, ValueError), "jwe.decrypt_json(flattened): only JoseError / ValueError escape")
+def _jwe_json_members(form, with_ek, extra):
+    def h():
+        key, k = oct_key("k")
+        value = {"protected": sym_str("protected"), "iv": sym_str("iv"), "ciphertext": sym_str("ciphertext"), "tag": sym_str("tag")}
+        holder = value
+        if form == "general":
+            holder = {}
+            value["recipients"] = [holder]
+        if with_ek:
+            holder["encrypted_key"] = sym_str("encrypted_key")
+        if extra == "header":
+            holder["header"] = sym_dict("header")
+        elif extra == "unprotected":
+            value["unprotected"] = sym_dict("unprotected")
+        elif extra == "aad":
+            value["aad"] = sym_str("aad")
+        out = call(jwe.decrypt_json, value, key, JSON_ALGS)
+        check(out.raised_only(JoseError, ValueError), "jwe.decrypt_json(%s; encrypted_key %s; %s): only JoseError / ValueError escape"
+              % (form, "present" if with_ek else "absent", extra))
+    h.__name__ = "h_jwe_%s_members_%s_%s" % (form, "ek" if with_ek else "noek", extra)
+    h.__doc__ = "JWE JSON object of the documented shape (%s): str members, dict headers, optional members present or absent" % form
+    return h
 
 
-def h_jwe_general_members():
-    key, k = oct_key("k")
-    rcp = {}
-    if sym_choice("with_ek", [True, False]):
-        rcp["encrypted_key"] = sym_str("encrypted_key")
-    if sym_choice("with_header", [False, True]):
-        rcp["header"] = sym_dict("header")
-    value = {"protected": sym_str("protected"), "iv": sym_str("iv"), "ciphertext": sym_str("ciphertext"), "tag": sym_str("tag"), "recipients": [rcp]}
-    if sym_choice("with_unprotected", [False, True]):
-        value["unprotected"] = sym_dict("unprotected")
-    out = call(jwe.decrypt_json, value, key, JSON_ALGS)
-    check(out.raised_only(JoseError, ValueError), "jwe.decrypt_json(general): only JoseError / ValueError escape")
+JWE_JSON_HARNESSES = [_jwe_json_members(f, e, x) for f in ("flattened", "general") for e in (True, False) for x in ("plain", "header", "unprotected", "aad")
+                      if not (x == "aad" and not e)]
 
 
 def h_jwt_decode_jwe():
@@ -177,7 +175,7 @@ def h_jwt_decode_jwe():
 
 JWE_HARNESSES = [h_jwe_compact_bytes, h_jwe_compact_header_json_dir, h_jwe_compact_header_json_kw, h_jwe_compact_header_json_gcmkw,
                  h_jwe_compact_header_json_pbes2, h_jwe_compact_ecdh_header_json, h_jwe_compact_rsa_header_json,
-                 h_jwe_flattened_members, h_jwe_general_members, h_jwt_decode_jwe]
+                 h_jwt_decode_jwe] + JWE_JSON_HARNESSES
 HARNESSES = [h_jws_compact_bytes, h_jws_compact_header_json, h_jws_compact_str, h_7797_compact_header_json,
              h_jws_flattened_members, h_jws_general_members, h_jwt_decode_jws]
 HARNESSES += JWE_HARNESSES
